@@ -33,6 +33,22 @@ int main() {
                 for (size_t e = 0; e < m && same; e++) same = (*p)(c.edges[e]) == fi(c.edges[e]) && p->is_on_forest(c.edges[e]) == fi.is_on_forest(c.edges[e]) && c.id((*p)(fi(c.edges[e]))) == e;
             }
         }
+        // refreshing a LIVE index of a graph that has grown since (same edge descriptors, renumbered): the assigned index must be the fresh one
+        {
+            DGraph g2(n); std::vector<DGraph::edge_descriptor> e2;
+            size_t half = m / 2;
+            for (size_t e = 0; e < half; e++) e2.push_back(boost::add_edge(boost::source(c.edges[e], c.g), boost::target(c.edges[e], c.g), g2).first);
+            parmcb::ForestIndex<DGraph> fr(g2), fr2(g2);
+            for (size_t e = half; e < m; e++) e2.push_back(boost::add_edge(boost::source(c.edges[e], c.g), boost::target(c.edges[e], c.g), g2).first);
+            fr = parmcb::ForestIndex<DGraph>(g2);                         // from a temporary
+            parmcb::ForestIndex<DGraph> named(g2); fr2 = named;          // from a named object
+            parmcb::ForestIndex<DGraph> fresh(g2);
+            for (const parmcb::ForestIndex<DGraph> *p : { &fr, &fr2 }) {
+                same = same && p->weak_connected_components() == fresh.weak_connected_components() && p->cycle_space_dimension() == fresh.cycle_space_dimension();
+                for (size_t e = 0; e < m && same; e++)
+                    same = (*p)(e2[e]) == fresh(e2[e]) && p->is_on_forest(e2[e]) == fresh.is_on_forest(e2[e]) && (*p)((*p)(e2[e])) == e2[e];
+            }
+        }
         out << " COPY " << (same ? 1 : 0);
         // recover the order in which the BFS roots were taken: emission order of spanning_forest
         std::vector<DGraph::edge_descriptor> emitted;
